@@ -78,9 +78,16 @@ pub proof fn lemma_quote_lits()
 pub uninterp spec fn spec_trim_cmd(s: Seq<char>) -> Seq<char>;
 #[verifier::external_body]
 pub fn trim_command(text: &str) -> (r: String) ensures r@ == spec_trim_cmd(text@) { unimplemented!() }
+#[verifier::external_body]
+pub fn vx_quote_chars() -> (r: Vec<char>) ensures r@ == seq!['"', '\''] { vec!['"', '\''] }
+#[verifier::external_body]
+pub fn vx_remove_first(s: &mut String) requires old(s)@.len() > 0 ensures final(s)@ == old(s)@.drop_first() { s.remove(0); }
+#[verifier::external_body]
+pub fn vx_pop_last(s: &mut String) ensures final(s)@ == (if old(s)@.len() > 0 { old(s)@.drop_last() } else { old(s)@ }) { s.pop(); }
 //@FN wrap_sep_string
 //@FN tokens_to_args
 //@FN tokens_to_line
+//@FN unquote
 //@FN line_to_cmds
 //@FN parse_line
 //@FN line_to_plain_tokens
@@ -144,10 +151,20 @@ tokens_to_args = Fn(P, 'tokens_to_args', ret='r', let_types={'result': 'Vec<Stri
 line_to_plain_tokens = Fn(P, 'line_to_plain_tokens', ret='r', let_types={'result': 'Vec<String>'},
                           loop_kinds={0: 'value', (0, 'clone'): 'vx_clone_token(&{})'})
 wrap_sep_string = Fn('src/tools.rs', 'wrap_sep_string', ret='r', loop_kinds={0: 'chars'})
-unquote = Fn(P, 'unquote', ret='r')
+unquote = Fn(P, 'unquote', ret='r',
+    pre_rewrites=[Rw("for &c in ['\"', '\\''].iter() {", "let __q = vx_quote_chars(); for c in __q.iter() { let c = *c;", rule='R12', why='iteration over a two-element char array literal through a Vec with those two elements'),
+                  Rw('new_str.remove(0);', 'vx_remove_first(&mut new_str);', rule='R12', why='String::remove(0): requires a non-empty string (panics otherwise)'),
+                  Rw('new_str.pop();', 'vx_pop_last(&mut new_str);', rule='R12', why='String::pop (None on an empty string: no panic)')],
+    # C05: never panics, also for a lone quote character; and what it returns is the text or the text without its surrounding pair of quotes
+    ensures=[('C05+C09.unquote.result_is_the_text_or_the_text_without_its_surrounding_quotes',
+              'r@ == text@ || (text@.len() >= 1 && r@ == text@.subrange(1, if text@.len() >= 2 { text@.len() - 1 } else { 1 }))')],
+    loops={0: Loop(invariant_except_break=[('C05.inv.unquote.untouched_so_far', 'new_str@ == text@')],
+                   ensures=[('C05.inv.unquote.shape', 'new_str@ == text@ || (text@.len() >= 1 && new_str@ == text@.subrange(1, if text@.len() >= 2 { text@.len() - 1 } else { 1 }))')])},
+    hints={'before-text:vx_pop_last(&mut new_str);': 'assert(text@.len() >= 2 ==> text@.drop_first().drop_last() =~= text@.subrange(1, text@.len() - 1)); '
+                                                     'assert(text@.len() == 1 ==> text@.drop_first() =~= text@.subrange(1, 1));'})
 
 UNIT = Unit('U-TOK', TEMPLATE,
-            fns=[Fn('src/types.rs', 'new', impl='LineInfo'), wrap_sep_string, tokens_to_args, tokens_to_line, line_to_cmds,
+            fns=[Fn('src/types.rs', 'new', impl='LineInfo'), wrap_sep_string, tokens_to_args, tokens_to_line, unquote, line_to_cmds,
                  parse_line, line_to_plain_tokens],
             types=[TypeItem('src/types.rs', 'struct', 'LineInfo')],
             props=('C05', 'C01', 'C03'))
